@@ -363,6 +363,7 @@ func runC16(c *core.Ctx) {
 	st := newC16State(c)
 	c16ThroughPoint(c, st)
 	c16Tiny(c, st)
+	c16TinyAtEndpoint(c, st)
 	c16EndpointUlp(c, st)
 	c16Collinear(c, st)
 	c16Antipodal(c, st)
